@@ -17,7 +17,8 @@ from .contract import Sym
 
 def _decls(interp, shape):
     S = Sym()
-    shape.build(S, interp)
+    with sym.PathCtx(timeout_ms=2000):
+        shape.build(S, interp)
     return S
 
 
